@@ -456,6 +456,47 @@ def rule_i7(prog, rep, rid='I7'):
                                           'reports a stale length' % (ln, canon(d), sc, ln))
 
 
+def rule_i8(prog, rep, rid='I8'):
+    """A function that zeroes the header counters releases every slot: a memset over maxslots * sizeof(slot), or a
+    loop over the whole slot array whose only exit is the index bound."""
+    rep.rule(rid, 'whoever zeroes the header counters (clear) releases every slot: whole-array memset or a full scan bounded only by maxslots')
+    prog.unit(UNIT)
+    for f in sorted(prog.funcs_in(UNIT), key=lambda x: x.line or 0):
+        zero = [x for x in walk(f.body) if x.get('kind') == 'BinaryOperator' and x.get('opcode') == '=' and int_value(children(x)[1]) == 0
+                and strip(children(x)[0]).get('kind') == 'MemberExpr' and (strip(children(x)[0]).get('_field') or ('', ''))[:2] == ('qhasharr_data_s', 'usedslots')]
+        if not zero or f.name == 'qhasharr':
+            continue
+        rep.instance(rid)
+        ok = False
+        how = 'no whole-array release found'
+        for x in walk(f.body):
+            if x.get('kind') == 'CallExpr' and prog.callee_name(x) == 'memset' and len(children(x)) > 3:
+                sz = canon(children(x)[3])
+                if 'maxslots' in sz and 'sizeof(qhasharr_slot_t)' in sz and '*' in sz and '-' not in sz and '/' not in sz:
+                    ok, how = True, 'memset of %s bytes' % sz
+        if not ok:
+            for x in walk(f.body):
+                if x.get('kind') in ('ForStmt', 'WhileStmt'):
+                    cond = x['inner'][2] if x.get('kind') == 'ForStmt' else x['inner'][0]
+                    releases = any(y.get('kind') == 'CallExpr' and prog.callee_name(y) in ('remove_slot', 'remove_data') for y in walk(x)) or \
+                        any(y.get('kind') == 'BinaryOperator' and y.get('opcode') == '=' and canon(children(y)[0]).endswith('.count')
+                            and int_value(children(y)[1]) == 0 for y in walk(x))
+                    if not releases or not cond:
+                        continue
+                    c = strip_parens(cond)
+                    simple = c.get('kind') == 'BinaryOperator' and c.get('opcode') in ('<', '!=') and canon(children(c)[1]).endswith('->maxslots')
+                    has_break = any(y.get('kind') in ('BreakStmt', 'ReturnStmt', 'GotoStmt') for y in walk(x))
+                    if simple and not has_break:
+                        ok, how = True, 'full scan %s' % canon(c)
+                    else:
+                        how = 'the releasing loop can stop early (condition %s%s)' % (canon(c)[:60], ', break/return inside' if has_break else '')
+        rep.oblige(rid, ok, {'function': f.name, 'release': how})
+        if not ok:
+            rep.violation(rid, f, zero[0].get('_line'), 'clear:%s' % f.name,
+                          '%s zeroes the header counters but %s: slots (e.g. extension blocks of multi-slot values) can stay '
+                          'occupied while the header says the table is empty' % (f.name, how))
+
+
 def _skip_link_edge(m, lab, dd):
     """The branch of `slots[dd].link != -1` on which the link is -1 needs no repair."""
     if m.kind != 'cond' or not isinstance(m.ast, dict) or lab not in ('T', 'F'):
